@@ -88,6 +88,10 @@ pub struct Plan {
     /// 16 or 64 KiB; the offset of the characters varies with the length of the line's tag)
     #[serde(default)]
     pub long_lines: u32,
+    /// bit k: task k ends each of its streams with 70-200 KiB written at once (more than a pipe
+    /// buffer, long after the stream's first output)
+    #[serde(default)]
+    pub late_bursts: u32,
 }
 
 #[derive(Debug, Clone, Serialize, Deserialize)]
@@ -107,9 +111,12 @@ pub fn plan(max_layer: usize, chatty: bool) -> impl Strategy<Value = Plan> {
         prop_oneof![1 => Just(0u32), 2 => any::<u32>()],
         prop_oneof![2 => Just(0u32), 1 => any::<u32>().prop_map(|x| x & 0x1111_1111)],
         prop_oneof![2 => Just(0u32), 1 => any::<u32>().prop_map(|x| x & 0x2222_2222)],
-        prop_oneof![2 => Just(0u32), 1 => any::<u32>().prop_map(|x| x & 0x4924_9249)],
+        (
+            prop_oneof![2 => Just(0u32), 1 => any::<u32>().prop_map(|x| x & 0x4924_9249)],
+            prop_oneof![2 => Just(0u32), 1 => any::<u32>().prop_map(|x| x & 0x1249_2492)],
+        ),
     )
-        .prop_map(|(layers, picks, ncmd, tasks, fail, unterminated, split_lines, bursts, long_lines)| Plan {
+        .prop_map(|(layers, picks, ncmd, tasks, fail, unterminated, split_lines, bursts, (long_lines, late_bursts))| Plan {
             layers,
             picks,
             ncmd,
@@ -119,6 +126,7 @@ pub fn plan(max_layer: usize, chatty: bool) -> impl Strategy<Value = Plan> {
             split_lines,
             bursts,
             long_lines,
+            late_bursts,
         })
 }
 
@@ -240,6 +248,14 @@ pub fn install(env: &Env, plan: &Plan, tag_lines: bool) -> Setup {
                         v.push(Step::P(pause));
                     }
                 }
+                if plan.late_bursts >> (task_no % 32) & 1 == 1 && lines > 0 {
+                    let n = 700 + (pause as usize * 11) % 1300;
+                    let mut b = vec![];
+                    for j in 0..n {
+                        b.extend_from_slice(format!("{}¦{}¦{}¦late{} {}\n", t.path, c, stream, j, "x".repeat(70)).as_bytes());
+                    }
+                    v.push(Step::W(b));
+                }
                 v
             };
             let out = mk("stdout", no, allow_unterminated && plan.unterminated >> ((2 * task_no) % 32) & 1 == 1);
@@ -285,13 +301,20 @@ struct Outcome {
     logs: BTreeMap<String, String>,
 }
 
-fn run_and_collect(env: &mut Env, setup: &Setup) -> Result<(Outcome, bb::MrOut), CheckError> {
+fn run_and_collect(env: &mut Env, setup: &Setup, limit: Duration, hang_is_violation: bool) -> Result<(Outcome, bb::MrOut), CheckError> {
     let mut args: Vec<&str> = vec!["run", "-c"];
     for c in &setup.commands {
         args.push(c);
     }
-    let out = env.mr(&args);
+    let out = env.mr_env(&args, &[], limit);
     if out.timed_out {
+        if hang_is_violation {
+            return viol_obs(
+                "c15.hang.with-listener",
+                format!("with the listener attached the run did not terminate within {:?}; without it the same run had finished normally", limit),
+                json!({"limit_s": limit.as_secs()}),
+            );
+        }
         return inconclusive("run timed out".into());
     }
     let mut o = Outcome {
@@ -375,7 +398,7 @@ pub fn check_c15(case: &Case, w: usize) -> CheckResult {
     let mut env = Env::new(w);
     let setup = install(&env, &case.plan, false);
     // reference: no listener
-    let (reference, ref_out) = run_and_collect(&mut env, &setup)?;
+    let (reference, ref_out) = run_and_collect(&mut env, &setup, Duration::from_secs(120), false)?;
     if reference.failed.is_none() {
         return inconclusive(format!("reference run produced no document: {}", ref_out.brief()));
     }
@@ -424,7 +447,13 @@ pub fn check_c15(case: &Case, w: usize) -> CheckResult {
         }
         _ => None,
     };
-    let (with, with_out) = run_and_collect(&mut env, &setup)?;
+    // a run that finished in ref_wall without a listener gets 30 times that (at least 90 s) with one
+    let limit = Duration::from_secs(90).max(ref_wall * 30);
+    let with_res = run_and_collect(&mut env, &setup, limit, true);
+    if with_res.is_err() {
+        env.kill_groups();
+    }
+    let (with, with_out) = with_res?;
     if let Some(k) = killer {
         let _ = k.join();
     }
@@ -498,16 +527,25 @@ pub fn strategy_c20(max_layer: usize) -> impl Strategy<Value = TailCase> {
         plan(max_layer, false),
         filters(0),
         proptest::sample::select(vec![1usize, 2, 4, 8]),
-        prop_oneof![4 => Just(0u64), 4 => 3u64..40, 1 => 520u64..700],
+        prop_oneof![4 => Just(0u64), 4 => 3u64..40, 2 => 520u64..700],
     )
-        .prop_map(|(mut plan, filters, tw, lock_delay_ms)| {
+        .prop_map(|(mut plan, mut filters, mut tw, lock_delay_ms)| {
             if lock_delay_ms >= 500 {
+                // everything is streamed, and a second worker thread can notice the wait
+                filters.stdout = true;
+                filters.stderr = true;
+                filters.targets.clear();
+                filters.commands.clear();
+                tw = tw.max(2);
                 // longer than the flush interval: every other task's flush waits for the
                 // connection through at least one tick; kept to a small plan
                 plan.layers = vec![plan.layers[0].min(3)];
                 plan.ncmd = 1;
                 plan.bursts = 0;
                 plan.long_lines = 0;
+                // (with a hold longer than the flush interval every flush costs more than a tick,
+                // so the volume must stay small or the run takes hours)
+                plan.late_bursts = 0;
             }
         // no failing task: a failure cancels the siblings in the middle of their output, and for a
         // task cut off like that neither "newline-terminated" nor "its stored log" is well defined
